@@ -61,6 +61,9 @@ def run(tier):
     kinds = ["norot", "onerot", "manyrot", "wrap", "dio", "diowrap"]
     n = 30 if thorough else 12
     sessions = [("%s-%d" % (kinds[i % 6], i), session(rng, kinds[i % 6])) for i in range(n)]
+    for i in range(4 if thorough else 1):     # delete runs that fill the memstore with tombstones (see C02), with the asynchronous log
+        st = c02.session(rng, "delheavy")
+        sessions.append(("delheavy-%d" % (n + i), [dict(x, **{"async": True}) if x["op"] == "open" else x for x in st]))
     npoints, nd, descs, nok, nbad = c02.run_sessions(o, binary, sessions, "async", PID)
     c02.hugewal(o, binary, "async", PID)
     common.log("[C13] %d sessions, %d crash points (%d distinct images), %d allowed, %d rejected" % (n, npoints, nd, nok, nbad))
